@@ -173,6 +173,18 @@ Wave 3 (loops; groups `line` `fold` `text` -> Gen/BodiesLine.lean, BodiesFold.le
                instance tests on unions as boolean expressions; an and-chain with an operand already decided false is false.
                `return NotImplemented` (None of an optional bool).  `s.isdigit()` (ASCII), `__new__` (first parameter `cls`).
                A method that is REMOVED from the source makes the translation fail (`function .. not found`).
+  wave 8       Python SETS built imperatively: `set()` (element type declared), `.add` / `.update(list)` / `.discard`, `s - {None}`;
+               a set is NEVER iterated (`for x in s` is refused: the order is unspecified), only `sorted(s)` lets its elements out
+               (`sorted` of str: code-point order; `sorted(xs, key=lambda k: E)` with an int key: keys first, then a stable sort).
+               A group may call another group's functions (GROUP_USES); a method is looked up in the class, else in its single
+               base class of the same file; a callee's default `lambda c: True`; a method that changes `self` through a declared
+               'mut' external returns the tree it leaves.  `{k: i for i, k in enumerate(xs)}`, `k in d`, `d[k]` (KeyError),
+               `[k for k in xs if C]`, `x or []`, `list(x)`.  `*args` / `**kwargs` when declared; whole call statements that change
+               `self` ('selfstmt'); iteration of an opaque object through a declared parameter (`'for <name>'`).  A generator bound
+               to a name that only the `return sep.join(name)` right after it consumes.  FRAGMENT by marker ({'after': text,
+               'result': names}); `[E for a, b, _ in xs]` / `for i, (a, b, ..) in enumerate(xs)` over tuples, `xs[i]`, `t[k]`;
+               nested loops with their own break (group tz); a local that is `False` or an int (`FalseOrInt`: Option Int) and
+               `assert x is not False` on it, which IS evaluated (AssertionError).
   parameters   the order of the generated parameters follows their first use in the source: apply the definitions BY NAME
                (`f (last_ack := ..) (snooze_until := ..)`), never positionally - two parameters of one type could
                otherwise change places together with the source and no proof or test would notice.
@@ -199,7 +211,7 @@ LEAN_TYPE = {'Int': 'Int', 'Str': 'Str', 'Bytes': 'Str', 'Bool': 'Bool', 'TD': '
              'Truth': 'Bool', 'Char': 'Char', 'OptInt': 'Option Int', 'Builder': 'Str', 'IntList': 'List Int',
              'Unbound:Int': 'Option Int', 'D': 'Trig', 'OptD': 'Option Trig', 'TDS': 'Int', 'OptTDS': 'Option Int', 'DList': 'List Trig',
              'ATList': 'List AT', 'Comp': 'Comp', 'CompList': 'List Comp', 'Fn:Comp:Bool': 'Comp → Bool', 'Object': 'Unit', 'OptBool': 'Option Bool', 'U:PyDDD': 'PyDDD', 'U:RVals': 'PyOneMany RV', 'U:ArgU': 'PyOneMany PV', 'U:DLU': 'PyOneMany DV', 'U:StoredU': 'PyOneMany OV', 'IV': 'PyIV', 'Vals': 'PyVals', 'Val': 'Val', 'ValList': 'List Val',
-             'Store': 'CDict.Store V', 'StepOut': 'CDict.Store V × CDict.Out V', 'V': 'V', 'OptV': 'Option V', 'Msg': 'Unit', 'ExcVal': 'Exc', 'Item': 'PyItem', 'ItemList': 'List PyItem', 'EntryList': 'List Entry'}
+             'Store': 'CDict.Store V', 'StepOut': 'CDict.Store V × CDict.Out V', 'V': 'V', 'OptV': 'Option V', 'Msg': 'Unit', 'ExcVal': 'Exc', 'Item': 'PyItem', 'ItemList': 'List PyItem', 'EntryList': 'List Entry', 'U:TZP': 'PyTzid'}
 
 
 def lean_type(t):
@@ -221,6 +233,8 @@ def lean_type(t):
     if t.startswith('Set:'):
         inner = lean_type(t[4:])
         return 'List ' + (f'({inner})' if ' ' in inner else inner)
+    if t == 'Dict:Str:Int':
+        return 'List (Str × Int)'
     if t.startswith('Pairs:'):
         inner = lean_type(t[6:])
         return f'List (Str × {"(" + inner + ")" if " " in inner else inner})'
@@ -230,7 +244,7 @@ def lean_type(t):
 def opaque_types(texts):
     """the opaque type parameters (single capital names that are no Lean type) mentioned in these Lean types"""
     known = {'Str', 'Int', 'Bool', 'Nat', 'Unit', 'Py', 'List', 'Option', 'Char', 'Exc', 'TD', 'Trig', 'Comp', 'Val', 'Entry',
-             'PyVals', 'PyItem', 'PyIV', 'PyDate', 'PyTime', 'PyDateTime', 'PyResult', 'PyOneMany', 'PyDDD', 'Loop', 'Type', 'CDict', 'SE', 'Store', 'Out'}
+             'PyVals', 'PyItem', 'PyIV', 'PyDate', 'PyTime', 'PyDateTime', 'PyResult', 'PyOneMany', 'PyDDD', 'Loop', 'Type', 'CDict', 'SE', 'Store', 'Out', 'PyTzid'}
     out = []
     for t in texts:
         for w in re.findall(r"(?<![\w.'])[A-Z][A-Za-z]*(?![\w.'])", t):
@@ -337,6 +351,11 @@ TARGETS = [
     Target('prop.py', 'vPeriod', 'to_ical', 'vPeriod_to_ical', None,
            {'by_duration': ('by_duration', 'Int'), 'start': ('start', 'U:PyDDD'), 'end': ('end_', 'U:PyDDD'), 'duration': ('duration', 'TD')},
            {}, False, 'enc', None, None, 'Bytes'),
+    # wave 8: vDDDLists.to_ical (C11): the elements are opaque objects `DO`; `dt.to_ical()` of an element and `from_unicode` are
+    # parameters; the generator bound to a name is consumed by the join that follows
+    Target('prop.py', 'vDDDLists', 'to_ical', 'vDDDLists_to_ical', None, {'dts': ('dts', 'List:DO')},
+           {'dt.to_ical()': ('pexpr', 'elem_to_ical', ['dt'], 'Bytes'),
+            'from_unicode': ('fun', 'from_unicode', ['Bytes'], 'Bytes')}, False, 'enc', None, None, 'Bytes'),
     # ---- decoders
     Target('prop.py', 'vDate', 'from_ical', 'vDate_from_ical', None, {}, {}, False, 'dec', {'ical': 'Str'}),
     Target('prop.py', 'vTime', 'from_ical', 'vTime_from_ical', None, {}, {}, False, 'dec', {'ical': 'Str'}),
@@ -358,6 +377,9 @@ TARGETS = [
     Target('prop.py', 'vPeriod', 'from_ical', 'vPeriod_from_ical', None, {},
            {'vDDDTypes.from_ical': ('pfun', 'ddd_from_ical', ['Str'], 'U:PyDDD', {'timezone': 'None'})}, False, 'dec',
            {'ical': 'Str', 'timezone': 'None'}),
+    # wave 8: vDDDLists.from_ical (C11): `ical.split(',')`, every part through the regenerated vDDDTypes.from_ical
+    Target('prop.py', 'vDDDLists', 'from_ical', 'vDDDLists_from_ical', None, {}, {}, False, 'dec',
+           {'ical': 'Str', 'timezone': 'None'}, None, 'List:U:PyDDD', {'out': 'List:U:PyDDD'}),
     # ---- recurrence rules (C19): vRecur.parse_type / from_ical / to_ical.  The rule under construction is an opaque `R`
     # (a CaselessDict), a part class an opaque `F`, a part value an opaque `RV`; what is stored under a key is one value or
     # a sequence of them (the union `RVals`, told apart by `isinstance(vals, SEQUENCE_TYPES)`)
@@ -434,6 +456,24 @@ TARGETS = [
     Target('caselessdict.py', 'CaselessDict', 'sorted_items', 'cd_sorted_items', 'State:S', {},
            {'canonsort_items': ('fun', 'canonsort_items', ['S', 'ORD'], 'Pairs:V'),
             'self.canonical_order': ('expr', 'canonical_order', ['self'], 'ORD')}, False, 'cdmeta', {}, None, 'Pairs:V'),
+    # wave 8: update / __init__ / copy.  `*args` is a list of opaque objects `M` (a mapping, or an iterable of pairs), `**kwargs`
+    # one more; what is asked of them (`hasattr(mapping, 'items')`, `iter(mapping.items())`, the pairs an iteration yields - or
+    # the exception), `super().__init__(*args, **kwargs)`, `self.items()` (a snapshot), `super().__delitem__(key)`,
+    # `self[key] = value`, `super().copy()` and `type(self)(..)` are parameters
+    Target('caselessdict.py', 'CaselessDict', 'update', 'cd_update', 'State:S', {},
+           {"hasattr(mapping, 'items')": ('expr', 'has_items', ['mapping'], 'Bool'),
+            'iter(mapping.items())': ('expr', 'items_iter', ['mapping'], 'M'),
+            'for mapping': ('pexpr', 'pairs_of', ['mapping'], 'Pairs:V'),
+            'self[]=': ('setitem', 'set_item', 'Str', 'V')}, False, 'cdmeta', {'*args': 'List:M', '**kwargs': 'M'}, None, 'S'),
+    Target('caselessdict.py', 'CaselessDict', '__init__', 'cd_init', 'State:S', {},
+           {'super().__init__(*args, **kwargs)': ('selfstmt', 'super_init', ['args', 'kwargs']),
+            'self.items()': ('expr', 'items', ['self'], 'Pairs:V'),
+            'to_unicode': ('fun', 'to_unicode', ['Str'], 'Str'),
+            'super().__delitem__(key)': ('selfstmt', 'super_delitem', ['key']),
+            'self[]=': ('setitem', 'set_item', 'Str', 'V')}, False, 'cdmeta', {'*args': 'List:M', '**kwargs': 'M'}, None, 'S'),
+    Target('caselessdict.py', 'CaselessDict', 'copy', 'cd_copy', 'State:S', {},
+           {'type(self)': ('pfun', 'construct', ['S'], 'S', {}),
+            'super().copy()': ('expr', 'super_copy', ['self'], 'S')}, False, 'cdmeta', {}, None, 'S'),
     # vDDDTypes.__init__ (C02 / C11): the VALUE and TZID parameters derived from what is wrapped (the union `PyDDD`); the
     # `Parameters(..)` constants, `tzid_from_dt` and `self.params.update({'TZID': tzid})` are parameters
     Target('prop.py', 'vDDDTypes', '__init__', 'vDDDTypes_init', 'Fields', {'params': ('params', 'P'), 'dt': ('dt_', 'U:PyDDD')},
@@ -575,6 +615,34 @@ TARGETS = [
     Target('cal.py', 'Component', 'to_ical', 'Component_to_ical', 'Comp', {},
            dict(SER_LINE, **{'content_lines.to_ical()': ('expr', 'lines_to_ical', ['content_lines'], 'Bytes')}), False, 'ser',
            {'sorted': 'Bool'}, None, 'Bytes'),
+    # ---- wave 8, time-zone discovery (C18): Calendar.timezones / get_used_tzids / get_missing_tzids / add_missing_timezones.
+    # `self` is the tree; `self.property_items(..)` / `self.walk(..)` are the regenerated Component methods of the groups `ser` /
+    # `walk` (GROUP_USES).  What is asked of a value of a pair (`hasattr(value, 'params')`, `value.params.get('TZID')`: None,
+    # a str, or a list / tuple of str - the union `TZP`), `'TZID' in timezone`, `timezone.tz_name` (a property of Timezone that
+    # may raise), `Timezone.from_tzid(..)` (may raise; the dates are opaque) and `self.add_component(..)` are parameters
+    Target('cal.py', 'Calendar', 'timezones', 'Calendar_timezones', 'Comp', {}, {}, False, 'tzuse', {}, None, 'CompList'),
+    Target('cal.py', 'Calendar', 'get_used_tzids', 'Calendar_get_used_tzids', 'Comp', {},
+           {"hasattr(value, 'params')": ('expr', 'has_params', ['value'], 'Bool'),
+            "value.params.get('TZID')": ('expr', 'tzid_param', ['value'], 'U:TZP')}, False, 'tzuse',
+           {}, None, 'Set:Str', {'result': 'Set:OptStr'}),
+    Target('cal.py', 'Calendar', 'get_missing_tzids', 'Calendar_get_missing_tzids', 'Comp', {},
+           {"'TZID' in timezone": ('expr', 'has_tzid', ['timezone'], 'Bool'),
+            'timezone.tz_name': ('pexpr', 'tz_name', ['timezone'], 'Str')}, False, 'tzuse', {}, None, 'Set:Str'),
+    Target('cal.py', 'Calendar', 'add_missing_timezones', 'Calendar_add_missing_timezones', 'Comp', {},
+           {'Timezone.from_tzid': ('pfun', 'from_tzid', ['Str'], 'Comp', {'first_date': 'DT', 'last_date': 'DT'}),
+            'self.add_component': ('mut', 'add_component', ['Comp'])}, False, 'tzuse',
+           {'first_date': 'DT', 'last_date': 'DT'}, None, 'Comp'),
+    # ---- wave 8, canonsort_keys (C17): a dict comprehension over enumerate, filtered comprehensions, keyed stable sort
+    Target('caselessdict.py', None, 'canonsort_keys', 'canonsort_keys', None, {}, {}, False, 'cdsort',
+           {'keys': 'StrList', 'canonical_order': 'Opt:StrList'}, None, 'StrList'),
+    # ---- wave 8, the second half of Timezone.get_transitions (C12) as a FRAGMENT: everything after `transitions.sort()`.  A
+    # transition is the tuple (transtime, osfrom, osto, name) with instants and timedeltas as ints of seconds (the hand model's
+    # convention); `dst` (a dict from name to bool) is opaque, `dst[name]` a parameter that may raise KeyError
+    Target('cal.py', 'Timezone', 'get_transitions', 'get_transitions_info', None, {},
+           {'dst[]': ('pgetitem', 'dst_of', 'Str', 'Bool')}, False, 'tz',
+           {'transitions': 'List:Tuple:Int × Int × Int × Str', 'dst': 'DST'},
+           {'after': 'transitions.sort()', 'result': ('transition_times', 'transition_info')}, None,
+           {'dst_offset': 'FalseOrInt', 'transition_info': 'List:Tuple:Int × Int × Str'}),
     # ---- the parse loop (C01 / C04 / C09): Component.from_ical.  Everything done with the opaque objects is a parameter
     Target('cal.py', 'Component', 'from_ical', 'Component_from_ical', None, {}, FROM_ICAL, False, 'parse',
            {'st': 'Str', 'multiple': 'Bool'}, None, 'Result:C', {'stack': 'List:C', 'comps': 'List:C'}),
@@ -655,7 +723,11 @@ UNIONS = {'DLU': {'members': {'DV': 'one', 'List:DV': 'many'}, 'lean': 'PyOneMan
                     'classes': {'SEQUENCE_TYPES': ['many']}},
           'PyDDD': {'members': {'PyDate': 'date', 'PyDateTime': 'dt', 'PyTime': 'time', 'TD': 'dur'},
                     'pair': 'period',       # a tuple display of two values of the union
-                    'classes': {'datetime': ['dt'], 'date': ['date', 'dt'], 'time': ['time'], 'timedelta': ['dur'], 'tuple': ['period']}}}
+                    'classes': {'datetime': ['dt'], 'date': ['date', 'dt'], 'time': ['time'], 'timedelta': ['dur'], 'tuple': ['period']}},
+          # wave 8: what `params.get('TZID')` gives: None or a str (`one`, an optional str), or a list / tuple of str (`many`)
+          # (`many` stands for both list and tuple: a test that names only one of them does not decide it and is refused)
+          'TZP': {'members': {'OptStr': 'one', 'StrList': 'many'}, 'lean': 'PyTzid', 'classes': {'list': ['many'], 'tuple': ['many']},
+                  'all_of': {'many': ['list', 'tuple']}}}
 
 
 def others_rebind(func, name):
@@ -772,6 +844,7 @@ class Fn:
     def __init__(self, target, cls_node, func, registry, modnames=None):
         self.t, self.cls, self.func, self.registry = target, cls_node, func, registry
         self.pairtarget = {}
+        self.tupletarget = {}
         self.setelts = set()
         self.excluded = {}
         self.modnames = modnames or {}
@@ -1078,6 +1151,11 @@ class Fn:
         return V('', 'Tuple', None, [self.expr(e, env) for e in node.elts])
 
     def e_Subscript(self, node, env):
+        if isinstance(node.value, ast.Name) and node.value.id in env and env[node.value.id].type == 'Dict:Str:Int':
+            k = self.expr(node.slice, env)      # wave 8: `d[k]` of a dict from str to int: KeyError without the key
+            if k.type != 'Str':
+                self.fail(node, f'`{ast.unparse(node)[:40]}`: key of type {k.type}')
+            return self.hoist(node, f'pyDictGet {env[node.value.id].lean} {k.lean}', 'Int')
         if self.objself and isinstance(node.value, ast.Name) and node.value.id == 'self' and 'self[]' in self.t.externals \
                 and not isinstance(node.slice, ast.Slice):
             k, e = self.expr(node.slice, env), self.t.externals['self[]']
@@ -1095,6 +1173,14 @@ class Fn:
         v, sl = self.expr(node.value, env), node.slice
         if v.type == 'Tuple' and isinstance(sl, ast.Constant) and type(sl.value) is int and 0 <= sl.value < len(v.elts):
             return self.narrow.get(v.elts[sl.value].lean, v.elts[sl.value])     # a component of a tuple display
+        if v.type.startswith('Tuple:') and v.elts is None and isinstance(sl, ast.Constant) and type(sl.value) is int \
+                and self.tuple_parts(v) is not None and 0 <= sl.value < len(self.tuple_parts(v)):
+            return self.tuple_parts(v)[sl.value]        # wave 8: a component of a tuple value
+        if v.type.startswith('List:Tuple:') and not isinstance(sl, ast.Slice) and ast.unparse(sl) not in ('-1', '0'):
+            i = self.expr(sl, env)       # wave 8: `xs[i]` with an int: IndexError outside the list, a negative index counts from the end
+            if i.type != 'Int':
+                self.fail(node, f'index `{ast.unparse(node)[:40]}` is not an int')
+            return self.hoist(node, f'listGetI {v.lean} {i.lean}', v.type[5:])
         if v.type.startswith('List:') and not isinstance(sl, ast.Slice) and ast.unparse(sl) in ('-1', '0'):
             return self.hoist(node, f'{"listLast" if ast.unparse(sl) == "-1" else "listHead"} {v.lean}', v.type[5:])
         lit = lambda b: b is None or (isinstance(b, ast.Constant) and type(b.value) is int and b.value >= 0)  # noqa: E731
@@ -1131,6 +1217,8 @@ class Fn:
             return V('none', 'OptBool', None)
         if node.id == 'self' and self.dictself:
             self.fail(node, '`self` of a dict method outside `super().<m>(..)`')
+        if node.id == 'self' and self.objself and 'self' in env:
+            return env['self']      # wave 8: a method that changes `self` (declared 'mut' on self.<m>): the tree it is now
         if node.id == 'self' and self.objself:
             return V("(Comp.mk name' props' subs')", 'Comp', None)
         if node.id == 'self' and 'self' in env:
@@ -1147,6 +1235,16 @@ class Fn:
         if v.type.startswith('Unbound:'):       # a `for` target after the loop
             return self.hoist(node, f'getBound {v.lean}', v.type[8:])
         return v
+
+    def tuple_parts(self, v):
+        """the components of a value whose type is a product of simple types (`Tuple:Int × Int × Str`), else None"""
+        if not v.type.startswith('Tuple:') or v.elts is not None:
+            return None
+        comps = v.type[6:].split(' × ')
+        if any(c not in ('Int', 'Str', 'Bool') for c in comps):
+            return None
+        n = len(comps)
+        return [V(v.lean + '.2' * i + ('.1' if i < n - 1 else ''), c, None) for i, c in enumerate(comps)]
 
     def as_item(self, v, node):
         """a pair `(name, x)` as a value: the name and what x is (bytes, a value object, what `self[name]` gave)"""
@@ -1176,6 +1274,20 @@ class Fn:
                     return V(f'(pyDedup ({xs.lean}.map (fun {x} => {elt.lean})))', 'Set:' + elt.type, None)
         self.fail(node, f'set comprehension `{ast.unparse(node)[:50]}`')
 
+    def e_DictComp(self, node, env):
+        """wave 8: `{k: i for i, k in enumerate(xs)}` over a list of str: a dict from str to int (a later duplicate overwrites)"""
+        g = node.generators[0]
+        if len(node.generators) == 1 and not g.is_async and not g.ifs and isinstance(g.target, ast.Tuple) and len(g.target.elts) == 2 \
+                and all(isinstance(e, ast.Name) for e in g.target.elts) and g.target.elts[0].id != g.target.elts[1].id \
+                and isinstance(g.iter, ast.Call) and isinstance(g.iter.func, ast.Name) and g.iter.func.id == 'enumerate' \
+                and 'enumerate' not in self.modnames and 'enumerate' not in env and len(g.iter.args) == 1 and not g.iter.keywords \
+                and isinstance(node.key, ast.Name) and node.key.id == g.target.elts[1].id \
+                and isinstance(node.value, ast.Name) and node.value.id == g.target.elts[0].id:
+            xs = self.expr(g.iter.args[0], env)
+            if xs.type == 'StrList':
+                return V(f'(pyDictOfEnum {xs.lean})', 'Dict:Str:Int', None)
+        self.fail(node, f'dict comprehension `{ast.unparse(node)[:50]}` (only `{{k: i for i, k in enumerate(<list of str>)}}`)')
+
     def e_List(self, node, env):
         vals = [self.expr(e, env) for e in node.elts]
         if vals and len({v.type for v in vals}) == 1 and re.fullmatch(r'[A-Z][A-Za-z]*', vals[0].type) and vals[0].type not in LEAN_TYPE and vals[0].type != 'Tuple':
@@ -1194,6 +1306,8 @@ class Fn:
                     return self.e_Constant(st.value, env)
             self.fail(node, f'cls.{node.attr} is not a class-level literal')
         dotted = ast.unparse(node)
+        if self.objself and dotted in ('self.name', 'self.subcomponents') and 'self' in env:
+            self.fail(node, f'`{dotted}` in a method that changes `self` through a declared external (read it before, or declare it)')
         if self.objself and dotted in ('self.name', 'self.subcomponents'):
             return V("name'", 'Str', None) if node.attr == 'name' else V("subs'", 'CompList', None)
         if dotted in self.t.self_attrs and isinstance(node.value, ast.Name) and node.value.id in (self.t.args or {}):
@@ -1203,11 +1317,11 @@ class Fn:
             v = self.param(*self.t.self_attrs[dotted[5:]])
             return self.narrow.get(v.lean, v)
         if isinstance(node.value, ast.Name) and node.value.id == 'self':
-            d = self.registry.get((self.t.cls, node.attr))
+            d = self.resolve(node.attr) if self.objself else self.registry.get((self.t.cls, node.attr))
             if d is not None and self.is_property(node.attr):      # a property of the class, translated earlier
                 for p in d.params:
                     self.param(*p)
-                lean = ' '.join([d.lean] + [p[0] for p in d.params])
+                lean = ' '.join([d.lean] + [p[0] for p in d.params] + ([self.e_Name(node.value, env).lean] if d.objself else []))
                 return self.hoist(node, lean, d.rtype) if d.monadic else V(f'({lean})', d.rtype, None)
             self.fail(node, f'attribute self.{node.attr} is not a declared parameter')
         if node.attr == 'tzinfo':
@@ -1222,8 +1336,36 @@ class Fn:
         return V(f'{base.lean}.{proj}', typ, None)
 
     def is_property(self, name):
+        c = self.defining_class(name) or self.cls
         return any(isinstance(st, ast.FunctionDef) and st.name == name
-                   and [ast.unparse(d) for d in st.decorator_list] == ['property'] for st in self.cls.body)
+                   and [ast.unparse(d) for d in st.decorator_list] == ['property'] for st in c.body)
+
+    def defining_class(self, name):
+        """the class whose body binds `name` as Python finds it on `self`: the class of the target, else its single base
+        class defined in the same file, and so on (several bases, or a base from elsewhere: None)"""
+        c = self.cls
+        for _ in range(8):
+            if c is None:
+                return None
+            for st in c.body:
+                if isinstance(st, (ast.FunctionDef, ast.AsyncFunctionDef, ast.ClassDef)) and st.name == name:
+                    return c
+                if isinstance(st, (ast.Assign, ast.AnnAssign, ast.AugAssign)) and any(
+                        isinstance(n, ast.Name) and n.id == name and isinstance(n.ctx, ast.Store) for n in ast.walk(st)):
+                    return c
+            if len(c.bases) != 1 or not isinstance(c.bases[0], ast.Name) or self.modnames.get(c.bases[0].id) != 'def' or self.tree is None:
+                return None
+            c = next((n for n in self.tree.body if isinstance(n, ast.ClassDef) and n.name == c.bases[0].id), None)
+        return None
+
+    def resolve(self, name):
+        """the translated method `name` of `self` (wave 8: also one inherited from a base class of the same file, when no
+        class in between defines the name)"""
+        d = self.registry.get((self.t.cls, name))
+        if d is not None or self.cls is None:
+            return d
+        c = self.defining_class(name)
+        return self.registry.get((c.name, name)) if c is not None else None
 
     def e_UnaryOp(self, node, env):
         if isinstance(node.op, ast.Not):
@@ -1236,6 +1378,14 @@ class Fn:
         self.fail(node, f'unary {type(node.op).__name__} on {v.type}')
 
     def e_BinOp(self, node, env):
+        if isinstance(node.op, ast.Sub) and isinstance(node.right, ast.Set) and len(node.right.elts) == 1 \
+                and isinstance(node.right.elts[0], ast.Constant) and node.right.elts[0].value is None:
+            a = self.expr(node.left, env)       # wave 8: `s - {None}`: a new set without None
+            if a.type == 'Set:OptStr':
+                return V(f'(setDropNone {a.lean})', 'Set:Str', None)
+            if a.type == 'Set:Str':
+                return a        # None is no element of it
+            self.fail(node, f'`- {{None}}` on a value of type {a.type}')
         return self.binop(node, node.op, self.expr(node.left, env), self.expr(node.right, env), node.right)
 
     def binop(self, node, op, a, b, right_node=None):
@@ -1340,6 +1490,8 @@ class Fn:
             if e is not None and e[0] == 'contains' and b.type == e[2]:     # `'KEY' in obj` on an opaque object
                 f = self.param(e[1], f'{lean_type(e[2])} → Str → Bool')
                 return V(f'({"!" if k == "NotIn" else ""}({f.lean} {b.lean} {a.lean}))', 'Bool', None)
+        if k in ('In', 'NotIn') and a.type == 'Str' and b.type == 'Dict:Str:Int':
+            return V(f'({neg}(pyDictHas {b.lean} {a.lean}))', 'Bool', None)
         if k in ('In', 'NotIn') and a.type == 'None' and b.type.startswith('Set:Opt:'):
             return V(f'({neg}({b.lean}.contains none))', 'Bool', None)
         if k in ('In', 'NotIn') and one(a) and b.type == 'Str':       # a one-character literal in a str
@@ -1356,6 +1508,13 @@ class Fn:
 
     def e_BoolOp(self, node, env):
         """value context: `a or b` / `a and b` return an operand"""
+        if isinstance(node.op, ast.Or) and len(node.values) == 2 and isinstance(node.values[1], ast.List) and not node.values[1].elts:
+            a = self.expr(node.values[0], env)      # wave 8: `x or []` on a list-or-None: None and the empty list give []
+            if a.type == 'Opt:StrList':
+                return V(f'(pyListOrEmpty {a.lean})', 'StrList', None)
+            if a.type == 'StrList':
+                return a
+            self.fail(node, f'`{ast.unparse(node)[:40]}` on a value of type {a.type}')
         vals = [self.expr(node.values[0], env)] + [self.lazily(self.expr, x, env) for x in node.values[1:]]
         if len({v.type for v in vals}) != 1:
             self.fail(node, 'and/or over operands of different types, used as a value')
@@ -1448,6 +1607,10 @@ class Fn:
                 v = self.expr(given[p], env)
             elif p in defaults and isinstance(defaults[p], ast.Constant):
                 v = self.e_Constant(defaults[p], env)       # the default of the callee
+            elif p in defaults and typ.startswith('Fn:') and typ.endswith(':Bool') and isinstance(defaults[p], ast.Lambda) \
+                    and len(defaults[p].args.args) == 1 and not defaults[p].args.defaults and not defaults[p].args.vararg \
+                    and not defaults[p].args.kwarg and isinstance(defaults[p].body, ast.Constant) and type(defaults[p].body.value) is bool:
+                v = V(f'(fun _ => {"true" if defaults[p].body.value else "false"})', typ, None)     # `lambda c: True`
             else:
                 self.fail(node, f'argument `{p}` of `{ast.unparse(node)[:40]}` is missing and has no constant default')
             if v.type == 'Str' and typ == 'OptStr':
@@ -1614,6 +1777,22 @@ class Fn:
         """`[x for x in xs if x.m()]` over a list of opaque objects whose method `m` is a parameter;
         `[E for v in xs]` whose E can raise: the elements in order, the first exception ends it"""
         g = node.generators[0]
+        if len(node.generators) == 1 and not g.is_async and not g.ifs and isinstance(g.target, ast.Tuple) \
+                and all(isinstance(e, ast.Name) for e in g.target.elts):
+            xs = self.expr(g.iter, env)      # wave 8: `[E for a, b, _ in xs]` over a list of tuples (a name may repeat: the last binds)
+            if xs.type.startswith('List:Tuple:'):
+                self.fresh += 1
+                x = f"p{self.fresh}'"
+                parts = self.tuple_parts(V(x, xs.type[5:], None))
+                if parts is not None and len(parts) == len(g.target.elts):
+                    keep, self.pre = self.pre, []
+                    try:
+                        elt = self.lazily(self.expr, node.elt, dict(env, **{e.id: pv for e, pv in zip(g.target.elts, parts)}))
+                        inner = self.pre
+                    finally:
+                        self.pre = keep
+                    if not inner and elt.type in ('Int', 'Str', 'Bool'):
+                        return V(f'({xs.lean}.map (fun {x} => {elt.lean}))', 'List:' + elt.type, None)
         two = len(node.generators) == 2 and all(not h.is_async and isinstance(h.target, ast.Name) and not h.ifs for h in node.generators) \
             and node.generators[0].target.id != node.generators[1].target.id
         if (len(node.generators) == 1 or two) and not g.is_async and isinstance(g.target, ast.Name) and not g.ifs:
@@ -1645,6 +1824,16 @@ class Fn:
         if len(node.generators) == 1 and not g.is_async and isinstance(g.target, ast.Name) and len(g.ifs) == 1 \
                 and isinstance(node.elt, ast.Name) and node.elt.id == g.target.id:
             c, xs = g.ifs[0], self.expr(g.iter, env)
+            if xs.type == 'StrList':        # wave 8: `[k for k in xs if C]`, C a test that cannot raise: a filter
+                x = lname(g.target.id)
+                keep, self.pre = self.pre, []
+                try:
+                    cond = self.lazily(self.test, c, dict(env, **{g.target.id: V(x, 'Str', None)}))
+                    inner = self.pre
+                finally:
+                    self.pre = keep
+                if not inner:
+                    return V(f'({xs.lean}.filter (fun {x} => {cond}))', 'StrList', None)
             if isinstance(c, ast.Call) and isinstance(c.func, ast.Attribute) and isinstance(c.func.value, ast.Name) \
                     and c.func.value.id == g.target.id and not c.args and not c.keywords:
                 ext = self.t.externals.get(c.func.attr)
@@ -1772,8 +1961,8 @@ class Fn:
                     self.recursive = True
                     lean = ' '.join([self.t.lean + '«EXT»', recv.lean] + [a.lean for a in args])
                     return self.hoist(node, lean, self.t.ret) if self.monadic else V(f'({lean})', self.t.ret, None)
-                d = self.registry.get((self.t.cls, fn.attr))
-                if d is not None and d.objself:     # another translated method of the class
+                d = self.resolve(fn.attr)
+                if d is not None and d.objself and not self.is_property(fn.attr):     # another translated method of the class (or of a base class)
                     args = self.bound_args(node, d.func, d.argtypes, env)
                     ext = [self.param(*p).lean for p in d.params]
                     lean = ' '.join([d.lean] + ext + [recv.lean] + [a.lean for a in args])
@@ -1961,6 +2150,40 @@ class Fn:
             rest = [self.param(*p).lean for p in d.params[d.nargs:]]     # its parameters become ours
             lean = ' '.join([d.lean] + [a.lean for a in args] + rest)
             return self.hoist(node, lean, d.rtype) if d.monadic else V(f'({lean})', d.rtype, None)
+        if fn.id == 'sorted' and 'sorted' not in self.modnames and len(node.args) == 1 and len(node.keywords) == 1 \
+                and node.keywords[0].arg == 'key' and isinstance(node.keywords[0].value, ast.Lambda) \
+                and not isinstance(node.args[0], ast.Starred):
+            lam = node.keywords[0].value        # wave 8: `sorted(xs, key=lambda k: E)`, E an int: keys first, then a stable sort
+            la = lam.args
+            xs = self.expr(node.args[0], env)
+            if xs.type == 'StrList' and len(la.args) == 1 and not (la.defaults or la.vararg or la.kwarg or la.kwonlyargs or la.posonlyargs):
+                x = lname(la.args[0].arg)
+                keep, self.pre, lazy, self.lazy = self.pre, [], self.lazy, 0
+                try:
+                    elt = self.expr(lam.body, dict(env, **{la.args[0].arg: V(x, 'Str', None)}))
+                    inner = self.pre
+                finally:
+                    self.pre, self.lazy = keep, lazy
+                if elt.type != 'Int':
+                    self.fail(node, f'sorted(.., key=..) with a key of type {elt.type} (only int)')
+                body = f'pure {elt.lean}'
+                for ln in reversed(inner):
+                    m = re.fullmatch(r"let (\S+) : (.*?) ← (.*)", ln)
+                    body = f'({m.group(3)}) >>= fun ({m.group(1)} : {m.group(2)}) => {body}'
+                return self.hoist(node, f'pySortedByIntKeyM (fun {x} => {body}) {xs.lean}', 'StrList')
+            self.fail(node, f'`{ast.unparse(node)[:50]}` (only a list of str with a one-argument lambda)')
+        if fn.id == 'sorted' and 'sorted' not in self.modnames and len(node.args) == 1 and not node.keywords \
+                and not isinstance(node.args[0], ast.Starred):
+            v = self.expr(node.args[0], env)        # wave 8: of a set / list of str: the code-point order is total on distinct
+            if v.type in ('Set:Str', 'StrList'):    # strings and equal strings cannot be told apart, so the result is determined
+                return V(f'(pySortedStr {v.lean})', 'StrList', None)
+            self.fail(node, f'sorted() of a value of type {v.type} (only a set or list of str)')
+        if fn.id == 'list' and 'list' not in self.modnames and len(node.args) == 1 and not node.keywords \
+                and not isinstance(node.args[0], ast.Starred):
+            v = self.expr(node.args[0], env)        # wave 8: a new list with the same elements (values are immutable here)
+            if v.type.startswith('List:') or v.type == 'StrList':
+                return v
+            self.fail(node, f'list() of a value of type {v.type}')
         builtins = ('str', 'int', 'abs', 'len', 'date', 'time', 'datetime')
         if fn.id in builtins and self.modnames.get(fn.id, f'datetime.{fn.id}') != f'datetime.{fn.id}':
             self.fail(node, f'`{fn.id}` is rebound at module level ({self.modnames[fn.id]})')
@@ -1972,6 +2195,8 @@ class Fn:
         if fn.id == 'timedelta' and not node.args and node.keywords:
             units = ['weeks', 'days', 'hours', 'minutes', 'seconds']
             kw = {k.arg: self.expr(k.value, env) for k in node.keywords}
+            if self.t.group == 'tz' and len(kw) == len(node.keywords) and set(kw) <= set(units) and all(v.type == 'Int' for v in kw.values()):
+                return V('(tdSeconds ' + ' '.join(kw[u].lean if u in kw else '(0 : Int)' for u in units) + ')', 'Int', None)
             if self.t.group == 'se' and len(kw) == len(node.keywords) and set(kw) <= set(units) and all(v.type == 'Int' for v in kw.values()):
                 return V('(tdsOfUnits ' + ' '.join(kw[u].lean if u in kw else '(0 : Int)' for u in units) + ')', 'TDS', None)
             if len(kw) == len(node.keywords) and set(kw) <= set(units) and all(v.type == 'Int' for v in kw.values()):
@@ -2153,6 +2378,20 @@ class Fn:
             if self.loopctx:
                 return self.take_pre() + [self.ret(f'(Loop.ret {v.lean})')]
             return self.take_pre() + [self.ret(v.lean)]
+        if isinstance(s, ast.Assert) and isinstance(s.test, ast.Compare) and len(s.test.ops) == 1 and isinstance(s.test.ops[0], ast.IsNot) \
+                and isinstance(s.test.comparators[0], ast.Constant) and s.test.comparators[0].value is False \
+                and isinstance(s.test.left, ast.Name) and (self.t.locals or {}).get(s.test.left.id) == 'FalseOrInt' and s.test.left.id in env \
+                and env[s.test.left.id].type == 'OptInt' and re.fullmatch(r"[A-Za-z_][\w']*", env[s.test.left.id].lean):
+            # wave 8: this assert IS evaluated (the hand model has its failure): AssertionError when the value is still False
+            if not self.monadic:
+                raise NeedMonad()
+            x = env[s.test.left.id]
+            self.fresh += 1
+            v = f"n{self.fresh}'"
+            env2 = dict(env)
+            env2[s.test.left.id] = V(v, 'Int', None)
+            return [f'match {x.lean} with', '| none => throw Exc.assertionError', f'| some {v} => do'] + \
+                ['  ' + ln for ln in self.block(rest, env2, tail)]
         if isinstance(s, ast.Assert):       # not evaluated: a documented precondition
             self.notes.append(f'PRECONDITION (assert, line {s.lineno}, not checked by the model; python -O is not '
                               f'modelled): `{ast.unparse(s.test)}`')
@@ -2161,6 +2400,15 @@ class Fn:
             if not self.loopctx:
                 self.fail(s, f'{type(s).__name__} outside a loop')
             return self.loopctx[-1]['brk' if isinstance(s, ast.Break) else 'cont'](env)
+        if isinstance(s, ast.Assign) and len(s.targets) == 1 and isinstance(s.targets[0], ast.Name) and isinstance(s.value, ast.GeneratorExp) \
+                and rest and isinstance(rest[0], ast.Return) and isinstance(rest[0].value, ast.Call) \
+                and isinstance(rest[0].value.func, ast.Attribute) and rest[0].value.func.attr == 'join' and not rest[0].value.keywords \
+                and len(rest[0].value.args) == 1 and isinstance(rest[0].value.args[0], ast.Name) and rest[0].value.args[0].id == s.targets[0].id \
+                and sum(1 for n in ast.walk(self.func) if isinstance(n, ast.Name) and n.id == s.targets[0].id) == 2:
+            # wave 8: `g = (E for v in xs)` consumed only by the `return sep.join(g)` that follows: nothing runs in between, so
+            # the elements are produced exactly where the join asks for them
+            ret = ast.copy_location(ast.Return(value=ast.copy_location(ast.Call(func=rest[0].value.func, args=[s.value], keywords=[]), rest[0].value)), rest[0])
+            return self.block([ret] + rest[1:], env, tail)
         if isinstance(s, ast.For):
             return self.for_(s, rest, env, tail)
         if isinstance(s, ast.While):
@@ -2173,6 +2421,18 @@ class Fn:
             f = self.param(e[1], ' → '.join([lean_type(fld.type)] + [lean_type(a.type) for a in args] + [lean_type(fld.type)]))
             env, line = self.bind(env, 'self__' + e[2], V('(' + ' '.join([f.lean, fld.lean] + [a.lean for a in args]) + ')', fld.type, None))
             return self.take_pre() + [line] + self.block(rest, env, tail)
+        if isinstance(s, ast.Expr) and isinstance(s.value, ast.Call) and 'self' in env \
+                and self.t.externals.get(ast.unparse(s.value), ('',))[0] == 'selfstmt':
+            # wave 8: a whole call statement that changes `self` (`super().__init__(*args, **kwargs)`): a parameter from the
+            # state before and the named locals to the state after; it may raise
+            e = self.t.externals[ast.unparse(s.value)]
+            args = [self.expr(ast.parse(n, mode='eval').body, env) for n in e[2]]
+            obj = env['self']
+            f = self.param(e[1], ' → '.join([lean_type(obj.type)] + [lean_type(x.type) for x in args] + [f'Py {lean_type(obj.type)}']))
+            new = self.hoist(s, ' '.join([f.lean, obj.lean] + [x.lean for x in args]), obj.type)
+            lines = self.take_pre()
+            env, line = self.bind(env, 'self', new)
+            return lines + [line] + self.block(rest, env, tail)
         if isinstance(s, ast.Expr) and isinstance(s.value, ast.Call):
             callee = ast.unparse(s.value.func)
             e = self.t.externals.get(callee)
@@ -2216,6 +2476,40 @@ class Fn:
             env = dict(env)
             env["out'"] = V("out'", 'DList', None)
             return self.take_pre() + [f"let out' : List Trig := (out' ++ [{v.lean}])"] + self.block(rest, env, tail)
+        if isinstance(s, ast.Expr) and isinstance(s.value, ast.Call) and isinstance(s.value.func, ast.Attribute) \
+                and isinstance(s.value.func.value, ast.Name) and s.value.func.value.id in env \
+                and env[s.value.func.value.id].type.startswith('Set:'):
+            # wave 8: a Python set (a duplicate-free list): .add(x) / .update(xs) / .discard(x)
+            name, m, call = s.value.func.value.id, s.value.func.attr, s.value
+            sv = env[name]
+            et = sv.type[4:]
+            if m not in ('add', 'update', 'discard') or len(call.args) != 1 or call.keywords or isinstance(call.args[0], ast.Starred):
+                self.fail(s, f'set method `{name}.{m}(..)` (only add / update / discard with one argument)')
+            a = self.expr(call.args[0], env)
+            if m in ('add', 'discard'):
+                x = a.lean if a.type == et else f'(some {a.lean})' if (et, a.type) == ('OptStr', 'Str') else \
+                    '(none : Option Str)' if (et, a.type) == ('OptStr', 'None') else None
+                if x is None:
+                    self.fail(s, f'`{name}.{m}(..)` of a {a.type} on a set of {et}')
+                new = f'({"setAdd" if m == "add" else "setDiscard"} {sv.lean} {x})'
+            else:
+                elem = 'Str' if a.type == 'StrList' else a.type[5:] if a.type.startswith('List:') else a.type[4:] if a.type.startswith('Set:') else None
+                xs = a.lean if elem == et else f'({a.lean}.map some)' if (et, elem) == ('OptStr', 'Str') else None
+                if elem is None or xs is None:
+                    self.fail(s, f'`{name}.update(..)` of a {a.type} on a set of {et}')
+                new = f'(setUpdate {sv.lean} {xs})'
+            lines = self.take_pre()
+            env, line = self.bind(env, name, V(new, sv.type, None))
+            return lines + [line] + self.block(rest, env, tail)
+        if isinstance(s, ast.Assign) and len(s.targets) == 1 and isinstance(s.targets[0], ast.Name) and isinstance(s.value, ast.Call) \
+                and isinstance(s.value.func, ast.Name) and s.value.func.id == 'set' and not s.value.args and not s.value.keywords:
+            if 'set' in self.modnames or 'set' in env:
+                self.fail(s, '`set` is rebound')
+            declared = (self.t.locals or {}).get(s.targets[0].id, '')
+            if not declared.startswith('Set:'):
+                self.fail(s, f'`{s.targets[0].id} = set()`: the element type is not declared (locals)')
+            env, line = self.bind(env, s.targets[0].id, V(f'([] : {lean_type(declared)})', declared, None))
+            return [line] + self.block(rest, env, tail)
         if isinstance(s, ast.Expr) and is_append(s.value):
             name = s.value.func.value.id
             if name in env and env[name].lean in self.narrow and self.narrow[env[name].lean].type.startswith('List:') and s.value.func.attr == 'append':
@@ -2235,6 +2529,9 @@ class Fn:
                 new = V(f'({x.lean} ++ [{self.as_item(v, s).lean}])', 'ItemList', None)
             elif x.type.startswith('List:') and v.type == x.type[5:]:
                 new = V(f'({x.lean} ++ [{v.lean}])', x.type, None)
+            elif x.type.startswith('List:Tuple:') and v.type == 'Tuple' and v.elts \
+                    and ' × '.join(lean_type(self.narrow.get(e.lean, e).type) for e in v.elts) == x.type[11:]:
+                new = V(f'({x.lean} ++ [(' + ', '.join(self.narrow.get(e.lean, e).lean for e in v.elts) + ')])', x.type, None)
             elif (x.type, v.type) in (('CompList', 'Comp'), ('ItemList', 'Item')):
                 new = V(f'({x.lean} ++ [{v.lean}])', x.type, None)
             else:
@@ -2296,6 +2593,21 @@ class Fn:
             f = self.param(e[1], f'{lean_type(obj.type)} → {lean_type(e[2])} → {lean_type(e[3])} → {lean_type(obj.type)}')
             env, line = self.bind(env, name, V(f'({f.lean} {obj.lean} {k.lean} {v.lean})', obj.type, None))
             return self.take_pre() + [line] + self.block(rest, env, tail)
+        if isinstance(s, ast.Assign) and len(s.targets) == 1 and isinstance(s.targets[0], ast.Name) \
+                and (self.t.locals or {}).get(s.targets[0].id) == 'FalseOrInt' and s.targets[0].id not in self.slots:
+            # wave 8: a local that is `False` or an int (a timedelta in seconds): `Option Int`, False = none; its truth value
+            # is Python's (False and 0 are false); `assert x is not False` raises AssertionError on none
+            if isinstance(s.value, ast.Constant) and s.value.value is False:
+                v = V('(none : Option Int)', 'OptInt', None)
+            else:
+                v = self.expr(s.value, env)
+                if v.type == 'Int':
+                    v = V(f'(some {v.lean})', 'OptInt', None)
+                if v.type != 'OptInt':
+                    self.fail(s, f'`{s.targets[0].id}` is assigned a {v.type}, declared False-or-int')
+            lines = self.take_pre()
+            env, line = self.bind(env, s.targets[0].id, v)
+            return lines + [line] + self.block(rest, env, tail)
         if isinstance(s, ast.Assign) and len(s.targets) == 1 and isinstance(s.targets[0], ast.Name) \
                 and (self.t.locals or {}).get(s.targets[0].id, '').startswith('Opt:'):
             want = self.t.locals[s.targets[0].id]       # a local declared to hold an object or None
@@ -2664,6 +2976,10 @@ class Fn:
             elif self.modnames.get(n.id) != 'datetime.' + n.id:
                 self.fail(node, f'`{n.id}` is not the class of the datetime module')
             acc += [c for c in u['classes'][n.id] if c not in acc]
+        for c, need in u.get('all_of', {}).items():
+            if c in acc and not set(need) <= {n.id for n in names}:
+                self.fail(node, f'instance test of a {x.type[2:]} for `{ast.unparse(node.args[1])}`: the member `{c}` stands for '
+                                f'{need}, the test names only part of them')
         allc = list(u['members'].values()) + ([u['pair']] if 'pair' in u else [])
         left = [c for c in allc if c not in self.excluded.get(x.lean, ())]
         return x, [c for c in left if c in acc], left
@@ -2838,6 +3154,8 @@ class Fn:
         typ = ' × '.join(lean_type(x.type) for x in ends[0])
         mon = any('←' in ln or 'throw ' in ln for ln in a + b)
         a, b = ([ln.replace('«T»', 'pure ' if mon else '') for ln in br] for br in (a, b))
+        if not mon:     # nothing in the branches can raise: a `match` inside them is a plain term (no `do`)
+            a, b = ([ln[:-3] if ln.endswith('=> do') else ln for ln in br] for br in (a, b))
         if mon:       # a branch can raise: the merge is a bind
             lines = pre + [f'let {m} : {typ} ← (', f'  if {c} then do'] + ind(ind(a)) + ['  else do'] + ind(ind(b))
         else:
@@ -2916,9 +3234,17 @@ class Fn:
         it, tgt, iname = s.iter, s.target, None
         if isinstance(it, ast.Call) and isinstance(it.func, ast.Name) and it.func.id == 'enumerate' \
                 and 'enumerate' not in self.modnames and 'enumerate' not in env and len(it.args) == 1 and not it.keywords:
-            if not (isinstance(tgt, ast.Tuple) and len(tgt.elts) == 2 and all(isinstance(e, ast.Name) for e in tgt.elts)):
+            if isinstance(tgt, ast.Tuple) and len(tgt.elts) == 2 and isinstance(tgt.elts[0], ast.Name) and isinstance(tgt.elts[1], ast.Tuple) \
+                    and all(isinstance(e, ast.Name) for e in tgt.elts[1].elts) \
+                    and len({e.id for e in tgt.elts[1].elts} | {tgt.elts[0].id}) == len(tgt.elts[1].elts) + 1:
+                # wave 8: `for i, (a, b, ..) in enumerate(xs)` over a list of tuples: the tuple gets a name, a, b, .. are its parts
+                it, iname, cname = it.args[0], tgt.elts[0].id, f'item{s.lineno}_'
+                self.tupletarget[cname] = [e.id for e in tgt.elts[1].elts]
+                tgt = None
+            elif not (isinstance(tgt, ast.Tuple) and len(tgt.elts) == 2 and all(isinstance(e, ast.Name) for e in tgt.elts)):
                 self.fail(s, 'target of a loop over enumerate(..) is not `i, ch`')
-            it, iname, cname = it.args[0], tgt.elts[0].id, tgt.elts[1].id
+            else:
+                it, iname, cname = it.args[0], tgt.elts[0].id, tgt.elts[1].id
         elif isinstance(tgt, ast.Name):
             cname = tgt.id
         elif isinstance(tgt, ast.Tuple) and len(tgt.elts) == 2 and all(isinstance(e, ast.Name) for e in tgt.elts) \
@@ -2937,10 +3263,18 @@ class Fn:
             itv = self.expr(it, env)
         if itv.type == 'Vals':      # iterating what `self[name]` gave: a TypeError unless it is a list
             itv = self.hoist(s, f'PyVals.elems {itv.lean}', 'ValList')
+        fe = self.t.externals.get('for ' + ast.unparse(it))
+        if fe is not None and fe[0] == 'pexpr' and not (itv.type in ITER or itv.type.startswith('List:') or itv.type.startswith('Pairs:')):
+            # wave 8: iterating an opaque object is a declared parameter: what it yields, or an exception
+            rt = lean_type(fe[3])
+            f = self.param(fe[1], f'{lean_type(itv.type)} → Py ({rt})')
+            itv = self.hoist(s, f'{f.lean} {itv.lean}', fe[3])
         if not (itv.type in ITER or itv.type.startswith('List:') or itv.type.startswith('Pairs:')) or s.orelse:
             self.fail(s, f'`for` over a value of type {itv.type}' if itv.type not in ITER else '`for .. else`')
         if cname in self.pairtarget and itv.type != 'ItemList' and not itv.type.startswith('Pairs:'):
             self.fail(s, f'`for {ast.unparse(tgt)}` over a value of type {itv.type} (only a list of pairs (name, value))')
+        if cname in self.tupletarget and not (itv.type.startswith('List:Tuple:') and len(itv.type[11:].split(' × ')) == len(self.tupletarget[cname])):
+            self.fail(s, f'tuple target of {len(self.tupletarget[cname])} names over a value of type {itv.type}')
         return self.loop(s, rest, env, tail, iname, cname, itv, None)
 
     def while_(self, s, rest, env, tail):
@@ -2960,10 +3294,11 @@ class Fn:
     def loop(self, s, rest, env, tail, iname, cname, itv, fuel):
         """a `for` over the characters of `itv` (fuel None) or a `while` on fuel: a separate recursive definition"""
         outer = (self.slots, self.slot_init, self.loopctx)      # a loop inside a loop body: its own definition
-        if self.loopctx and any(isinstance(n, (ast.Break, ast.Continue, ast.Return)) for st in s.body for n in ast.walk(st)):
-            self.fail(s, 'nested loop with break / continue / return')
+        if self.loopctx and any(isinstance(n, (ast.Break, ast.Continue, ast.Return)) for st in s.body for n in ast.walk(st)) \
+                and (self.t.group != 'tz' or any(isinstance(n, ast.Return) for st in s.body for n in ast.walk(st))):
+            self.fail(s, 'nested loop with break / continue / return')      # (wave 8, group tz: break / continue of the inner loop are its own)
         pre0 = self.take_pre()
-        targets = ({iname, cname} | set(self.pairtarget.get(cname, ()))) - {None}
+        targets = ({iname, cname} | set(self.pairtarget.get(cname, ())) | set(self.tupletarget.get(cname, ()))) - {None}
         asg = self.assigned_env(s.body, env)
         stored = {n.id for st in s.body for n in ast.walk(st) if isinstance(n, ast.Name) and isinstance(n.ctx, ast.Store)}
         asg = [n for n in asg if not (n in targets and n not in stored)]    # `v.attr = x` on the loop variable: local to the iteration
@@ -2978,7 +3313,17 @@ class Fn:
         for n in asg:
             if n not in env and n not in targets and n in later:
                 self.fail(s, f'`{n}` is first bound inside the loop and read after it')
-        if cname in later and cname not in comp_local:
+        def rebound_by_later_for(name):
+            """wave 8: every read of the name after this loop lies in the body of a later `for` that binds it anew"""
+            inside = set()
+            for st in rest:
+                for f in ast.walk(st):
+                    if isinstance(f, ast.For) and any(isinstance(n, ast.Name) and n.id == name for n in ast.walk(f.target)) \
+                            and not any(isinstance(n, ast.Name) and n.id == name for n in ast.walk(f.iter)):
+                        inside |= {id(n) for b in f.body for n in ast.walk(b)}
+            loads = [n for st in rest for n in ast.walk(st) if isinstance(n, ast.Name) and n.id == name and isinstance(n.ctx, ast.Load)]
+            return bool(loads) and all(id(n) in inside for n in loads) and name not in tail.names
+        if cname in later and cname not in comp_local and not rebound_by_later_for(cname):
             self.fail(s, f'the loop variable `{cname}` is read after the loop')
         for n in state:
             if env[n].type in ('Tuple',) or env[n].type.startswith('Unbound'):
@@ -3014,10 +3359,11 @@ class Fn:
             if re.fullmatch(r"[A-Za-z_][\w']*", n) and n not in inner and word(n) and n not in [c[0] for c in caps]:
                 caps.append((n, typ))
         capsig = ('«EXTSIG»' if self.objself else '') + ''.join(f' ({n} : {lean_type(t)})' for n, t in caps)
-        if self.t.group in ('parse', 'alarm', 'recur', 'add', 'cdmeta'):     # the opaque types the loop mentions
+        if self.t.group in ('parse', 'alarm', 'recur', 'add', 'cdmeta', 'tzuse', 'tz'):     # the opaque types the loop mentions
             ops = opaque_types([lean_type(t) for _, t in caps] + [lean_type(slots[n]) for n in state]
                                + ([lean_type(itv.type)] if itv is not None else []))
-            capsig = ''.join(f' {{{o} : Type}}' for o in ops) + capsig
+            if not self.objself:        # (a method on the tree: «EXTSIG» brings the function's own binders)
+                capsig = ''.join(f' {{{o} : Type}}' for o in ops) + capsig
         capargs = ('«EXT»' if self.objself else '') + ''.join(' ' + n for n, _ in caps)
         body = [ln.replace(' «CAP»', capargs) for ln in body]
         sigma = [lean_type(slots[n]) for n in state] + (['Option Int'] if last else [])
@@ -3096,6 +3442,18 @@ class Fn:
                     for f in (d.fields or []) if d is not None else []:
                         if 'self__' + f not in asg:
                             asg.append('self__' + f)
+                if isinstance(n, ast.Call) and self.t.externals.get(ast.unparse(n), ('',))[0] == 'selfstmt' and 'self' in env and 'self' not in asg:
+                    asg.append('self')
+                if isinstance(n, ast.Assign) and len(n.targets) == 1 and isinstance(n.targets[0], ast.Subscript) \
+                        and isinstance(n.targets[0].value, ast.Name) and n.targets[0].value.id == 'self' and 'self' in env \
+                        and self.t.externals.get('self[]=', ('',))[0] == 'setitem' and 'self' not in asg:
+                    asg.append('self')      # wave 8: `self[k] = v` on a state changes it
+                if isinstance(n, ast.Call) and isinstance(n.func, ast.Attribute) and isinstance(n.func.value, ast.Name) \
+                        and n.func.value.id in env and env[n.func.value.id].type.startswith('Set:') and n.func.value.id not in asg:
+                    asg.append(n.func.value.id)        # wave 8: a method call on a set changes it
+                if isinstance(n, ast.Call) and self.t.externals.get(ast.unparse(n.func), ('',))[0] == 'mut' and isinstance(n.func, ast.Attribute) \
+                        and isinstance(n.func.value, ast.Name) and n.func.value.id == 'self' and 'self' in env and 'self' not in asg:
+                    asg.append('self')      # wave 8: a declared mutating method of `self`
                 if isinstance(n, ast.Call) and self.t.externals.get(ast.unparse(n.func), ('',))[0] in ('mut', 'mutlast'):
                     root = n.func
                     while isinstance(root, ast.Attribute):
@@ -3137,6 +3495,9 @@ class Fn:
                 benv[self.pairtarget[cname][1]] = V(f'{lname(cname)}.2', pt, None)
         if iname:
             benv[iname] = V(lname(iname), 'Int', None)
+        if cname in self.tupletarget:
+            for nm, pv in zip(self.tupletarget[cname], self.tuple_parts(benv[cname])):
+                benv[nm] = pv
         cur = lambda e: [e[n].lean for n in state]   # noqa: E731
 
         def again(e):       # the end of the body and `continue`: the next iteration
@@ -3171,8 +3532,14 @@ class Fn:
         if t.fn == '__new__' and decos == []:
             first = ['cls']       # an implicit static method whose first parameter is the class
         names = [x.arg for x in a.args]
-        if first is None or a.vararg or a.kwarg or a.kwonlyargs or a.posonlyargs or names != first + list(t.args or {}):
-            self.fail(self.func, f'signature ({", ".join(names)}) / decorators {decos} differ from the declared ones')
+        # wave 8: `*args` / `**kwargs` are accepted when the target declares them (`'*args'`, `'**kwargs'`) with a type
+        want_var = next((n[1:] for n in (t.args or {}) if n.startswith('*') and not n.startswith('**')), None)
+        want_kw = next((n[2:] for n in (t.args or {}) if n.startswith('**')), None)
+        plain = [n for n in (t.args or {}) if not n.startswith('*')]
+        if first is None or (a.vararg.arg if a.vararg else None) != want_var or (a.kwarg.arg if a.kwarg else None) != want_kw \
+                or a.kwonlyargs or a.posonlyargs or names != first + plain:
+            self.fail(self.func, f'signature ({", ".join(names)}' + (f', *{a.vararg.arg}' if a.vararg else '')
+                      + (f', **{a.kwarg.arg}' if a.kwarg else '') + f') / decorators {decos} differ from the declared ones')
         defaults = dict(zip(names[len(names) - len(a.defaults):], a.defaults))
         env = {}
         FIELD_LNAME.clear()
@@ -3203,6 +3570,7 @@ class Fn:
         if (t.self_type or '').startswith('State:'):     # the object itself is a value that the method changes and leaves
             env['self'] = self.param('self_', t.self_type[6:])
         for n, typ in (t.args or {}).items():
+            n = n.lstrip('*')
             if typ == 'Object':     # an object that is only used through attributes declared as parameters
                 continue
             if typ == 'None':       # specialised to the default, which must be None
@@ -3228,19 +3596,28 @@ class Fn:
             if gen:     # a generator that is exhausted: the list of what it yielded
                 self.rtype = 'DList'
                 return [self.ret(e["out'"].lean)]
+            if self.objself and 'self' in e:        # a method that changes `self` and returns None: the tree it leaves
+                self.rtype = 'Comp'
+                return [self.ret(e['self'].lean)]
             self.fail(self.func, 'a path reaches the end of the function without `return`')
         if gen:
             if any(isinstance(n, (ast.Return, ast.YieldFrom)) for n in ast.walk(self.func)):
                 self.fail(self.func, 'generator with `return` / `yield from`')
             env["out'"] = V("out'", 'DList', None)
         top = Tail(["out'"] if gen else ['self'] if (t.self_type or '').startswith('State:') else ['self__' + f for f in (self.fields or [])], off_end)
+        first_lines = []
+        if self.objself and any(isinstance(e[0], str) and e[0] == 'mut' and k.startswith('self.') for k, e in t.externals.items()):
+            # wave 8: the method changes `self` through a declared external: `self` is a variable, the method returns what it leaves
+            env['self'] = V('self', 'Comp', None)
+            first_lines = ["let self : Comp := (Comp.mk name' props' subs')"]
+            top = Tail(['self'], off_end)
         saved = list(self.used)
         try:
-            return self.block(self.func.body, env, top)
+            return first_lines + self.block(self.func.body, env, top)
         except NeedMonad:
             self.monadic, self.used, self.rtype, self.fresh, self.pre, self.notes = True, saved, None, 0, [], []
             self.aux, self.nloops, self.loopctx, self.slots, self.narrow = [], 0, [], {}, {}
-            return self.block(self.func.body, env, top)
+            return first_lines + self.block(self.func.body, env, top)
 
     def written_fields(self):
         """the declared attributes of self that the function assigns, appends to, or that a translated method it calls writes"""
@@ -3304,24 +3681,47 @@ class Fn:
         """the first `for` loop of the function and the constant initialisations directly in front of it; the free
         variables are the declared arguments; the result is the tuple of the variables named in the target"""
         t = self.t
-        frag = find_fragment(self.func)
-        if frag is None:
-            self.fail(self.func, 'no `for` loop found')
-        self.notes.append(f'FRAGMENT: lines {frag[0].lineno}-{frag[-1].end_lineno} of the function (the first `for` loop and the '
-                          f'constant initialisations in front of it); result = ({", ".join(t.fragment)}), where a loop '
-                          f'variable is None when the loop never ran')
-        env = {n: self.param(lname(n), typ) for n, typ in (t.args or {}).items()}
-        self.nargs = len(self.used)
-        types = []
+        if isinstance(t.fragment, dict):
+            # wave 8: the statements AFTER the top-level statement whose text is `after`, up to the final `return` of the
+            # function, which must return exactly the tuple of the names in `result`
+            names = list(t.fragment['result'])
+            body0 = [st for st in self.func.body]
+            k = next((i for i, st in enumerate(body0) if ast.unparse(st) == t.fragment['after']), None)
+            if k is None:
+                self.fail(self.func, f'fragment marker `{t.fragment["after"]}` is not a top-level statement of the function')
+            frag = body0[k + 1:]
+            if not frag or not isinstance(frag[-1], ast.Return) or ast.unparse(frag[-1].value) != '(' + ', '.join(names) + ')':
+                self.fail(self.func, f'the function does not end in `return {", ".join(names)}`')
+            frag = frag[:-1]
+            self.notes.append(f'FRAGMENT: lines {frag[0].lineno}-{frag[-1].end_lineno} of the function (everything after '
+                              f'`{t.fragment["after"]}`); result = what the function returns, ({", ".join(names)})')
+        else:
+            names = list(t.fragment)
+            frag = find_fragment(self.func)
+            if frag is None:
+                self.fail(self.func, 'no `for` loop found')
+            self.notes.append(f'FRAGMENT: lines {frag[0].lineno}-{frag[-1].end_lineno} of the function (the first `for` loop and the '
+                              f'constant initialisations in front of it); result = ({", ".join(names)}), where a loop '
+                              f'variable is None when the loop never ran')
+        saved_notes = list(self.notes)
+        while True:
+            env = {n: self.param(lname(n), typ) for n, typ in (t.args or {}).items()}
+            self.nargs = len(self.used)
+            types = []
 
-        def result(e):
-            for n in t.fragment:
-                if n not in e:
-                    self.fail(self.func, f'fragment result `{n}` is not bound')
-                types.append(lean_type(e[n].type))
-            return ['(' + ', '.join(e[n].lean for n in t.fragment) + ')']
-        # the variables of the result are "read later"
-        body = self.block(frag, env, Tail(list(t.fragment), result))
+            def result(e):
+                for n in names:
+                    if n not in e:
+                        self.fail(self.func, f'fragment result `{n}` is not bound')
+                    types.append(lean_type(e[n].type))
+                return [self.ret('(' + ', '.join(e[n].lean for n in names) + ')')]
+            try:
+                # the variables of the result are "read later"
+                body = self.block(frag, env, Tail(names, result))
+                break
+            except NeedMonad:
+                self.monadic, self.used, self.rtype, self.fresh, self.pre, self.notes = True, [], None, 0, [], list(saved_notes)
+                self.aux, self.nloops, self.loopctx, self.slots, self.narrow = [], 0, [], {}, {}
         self.rtype, self.rtype_lean = 'Tuple', ' × '.join(types)
         return body
 
@@ -3332,7 +3732,7 @@ PARAM_DOC = {'V': 'a value', 'OptV': 'a value or None', 'Comp': 'a component (tr
              'PyDateTime': 'datetime: year month day hour minute second', 'Int': 'int', 'Bool': 'bool', 'Str': 'str',
              'StrList': 'list of str'}
 RETURN_DOC = {'StepOut': 'the new state of the dict and what the call returns', 'ItemList': 'a list of pairs (name, value)', 'CompList': 'a list of components', 'DList': 'a list of dates / datetimes', 'ATList': 'a list of the same objects', 'D': 'a date or datetime', 'OptD': 'a datetime or None', 'StrList': 'a list of str', 'Tuple': 'a tuple', 'Bytes': 'bytes (as the str they encode)', 'TD': 'a timedelta', 'PyDate': 'a date', 'PyTime': 'a time',
-              'PyDateTime': 'a datetime'}
+              'PyDateTime': 'a datetime', 'Set:Str': 'a set of str (duplicate-free list, insertion order)', 'Comp': 'the component (tree) it leaves'}
 HEADERS = {
     'enc': ['/- GENERATED by tools/py2lean.py (called from tools/extract.py) from the function bodies in',
             '   src/icalendar. Do not edit: regenerated on every run; lean/ICal/Lemmas/Bodies.lean proves each',
@@ -3424,6 +3824,33 @@ HEADERS['ser'] = ['/- GENERATED by tools/py2lean.py (called from tools/extract.p
                   '   are those of ICal/Model/PyRTSer.lean; call arguments are bound by the callee\'s signature. -/',
                   'import ICal.Model.PyRTSer', 'set_option linter.unusedVariables false',
                   'namespace ICal.Gen.BodiesSer', 'open ICal ICal.PyRT', '']
+NAMESPACE['tzuse'] = 'ICal.Gen.BodiesTzUse'
+HEADERS['tzuse'] = ['/- GENERATED by tools/py2lean.py (called from tools/extract.py) from Calendar.timezones / get_used_tzids /',
+                    '   get_missing_tzids / add_missing_timezones of src/icalendar/cal.py. Do not edit: regenerated on every run;',
+                    '   lean/ICal/Lemmas/BodiesTzUse.lean proves each equal to the hand-written model (ICal/Model/TzUse.lean).  `self` is the',
+                    '   tree `Comp`; `self.property_items(..)` and `self.walk(..)` are the regenerated methods of Gen/BodiesSer.lean and',
+                    '   Gen/BodiesWalk.lean (inherited from Component: no class in between defines them).  A Python set is a duplicate-free',
+                    '   list in insertion order (ICal/Model/PyRTTzUse.lean); it is never iterated, only sorted; a method that changes `self`',
+                    '   returns the tree it leaves. -/',
+                    'import ICal.Model.PyRTTzUse', 'import ICal.Gen.BodiesSer', 'import ICal.Gen.BodiesWalk',
+                    'set_option linter.unusedVariables false',
+                    'namespace ICal.Gen.BodiesTzUse', 'open ICal ICal.PyRT', '']
+NAMESPACE['cdsort'] = 'ICal.Gen.BodiesCDictSort'
+HEADERS['cdsort'] = ['/- GENERATED by tools/py2lean.py (called from tools/extract.py) from canonsort_keys of src/icalendar/caselessdict.py.',
+                     '   Do not edit: regenerated on every run; lean/ICal/Lemmas/BodiesCDictSort.lean proves it equal to the hand-written',
+                     '   model (ICal/Model/CDict.lean: `canonsort`).  The dict comprehension, `k in d`, `d[k]` (KeyError), the keyed stable',
+                     '   `sorted` and `x or []` are the definitions of ICal/Model/PyRTDict.lean; `sorted` of str is the code-point order. -/',
+                     'import ICal.Model.PyRTDict', 'set_option linter.unusedVariables false',
+                     'namespace ICal.Gen.BodiesCDictSort', 'open ICal ICal.PyRT', '']
+NAMESPACE['tz'] = 'ICal.Gen.BodiesTz'
+HEADERS['tz'] = ['/- GENERATED by tools/py2lean.py (called from tools/extract.py) from the second half of Timezone.get_transitions of',
+                 '   src/icalendar/cal.py (a FRAGMENT: everything after `transitions.sort()`). Do not edit: regenerated on every run;',
+                 '   lean/ICal/Lemmas/BodiesTz.lean proves it equal to the hand-written model (ICal/Model/Tz.lean: `infoGo`, `dstOffset`).',
+                 '   Instants and timedeltas are ints of seconds; a transition is the tuple (transtime, osfrom, osto, name); a local that',
+                 '   is `False` or a timedelta is `Option Int`; `xs[i]`, `range`, `dst[name]` are partial (ICal/Model/PyRTTz.lean). -/',
+                 'import ICal.Model.PyRTTz', 'set_option linter.unusedVariables false',
+                 'namespace ICal.Gen.BodiesTz', 'open ICal ICal.PyRT', '']
+GROUP_USES = {'tzuse': ['ser', 'walk']}      # groups whose translated functions this group calls (imported, qualified names)
 NAMESPACE['walk'] = 'ICal.Gen.BodiesWalk'
 HEADERS['walk'] = ['/- GENERATED by tools/py2lean.py (called from tools/extract.py) from Component._walk / walk of',
                    '   src/icalendar/cal.py. Do not edit: regenerated on every run; lean/ICal/Lemmas/BodiesWalk.lean proves each',
@@ -3449,9 +3876,14 @@ def comment_safe(s):
     return s.replace('-/', '- /').replace('/-', '/ -')
 
 
-def translate(src_dir, group='enc'):
+def translate(src_dir, group='enc', registry=None):
     out = list(HEADERS[group])
-    fps, registry, trees = {}, {}, {}
+    fps, registry, trees = {}, ({} if registry is None else registry), {}
+    for dep in GROUP_USES.get(group, ()):       # what this group calls of another group's file: known under its qualified name
+        sub = {}
+        translate(src_dir, dep, sub)
+        for k, d in sub.items():
+            registry[k] = d._replace(lean=NAMESPACE[dep] + '.' + d.lean)
     for t in TARGETS:
         if t.group != group:
             continue
@@ -3524,7 +3956,7 @@ def translate(src_dir, group='enc'):
         sig = ''.join(f' ({p} : {lean_type(ty)})' for p, ty in fn.used)
         opaque = sorted({e[3] for e in t.externals.values() if isinstance(e[0], str) and e[0] in ('pfun', 'expr') and e[3] not in LEAN_TYPE and e[3] != 'Object' and ':' not in e[3]})
         opaque = sorted(set(opaque) | {o for o in ('AT',) if re.search(r'\b' + o + r'\b', sig)})
-        if group in ('parse', 'alarm', 'recur', 'add', 'cdmeta') or t.lean == 'vMonth_new':
+        if group in ('parse', 'alarm', 'recur', 'add', 'cdmeta', 'tzuse', 'tz') or t.lean in ('vMonth_new', 'vDDDLists_to_ical'):
             opaque = opaque_types([lean_type(ty) for _, ty in fn.used] + [fn.rtype_lean or lean_type(fn.rtype)])
         sig = ''.join(f' {{{o} : Type}}' for o in opaque) + ''.join(f' [BEq {o}]' for o in sorted(getattr(fn, 'setelts', ())) if o in opaque) + sig
         rt = fn.rtype_lean or lean_type(fn.rtype)
